@@ -269,6 +269,11 @@ func (g *G) numberExpr() (*Expr, *big.Int) {
 		}
 		return &Expr{K: "sub", L: Num(fmt.Sprint(a)), R: Num(fmt.Sprint(b))}, big.NewInt(a - b)
 	}
+	if !g.P.Safe && g.chance(g.P.PBigNum*0.15) {
+		// a literal beyond the machine word, in the script text itself
+		v := bigTwo(63 + uint(g.R.IntN(8)))
+		return Num(v.String()), v
+	}
 	n := g.smallNum()
 	return Num(fmt.Sprint(n)), big.NewInt(n)
 }
@@ -803,6 +808,15 @@ func (g *G) genOriginVar(t string) {
 			}
 		}
 		g.Vars = append(g.Vars, vi)
+	}
+	if g.chance(0.1) {
+		// the caller's variables also hold an entry named like this computed variable (a document
+		// shared between scripts): the value of a variable with an origin is its origin's
+		last := g.Prog.Vars[len(g.Prog.Vars)-1]
+		g.In.Vars[last.Name] = map[string]string{"account": "zz:supplied", "asset": "ZZZ", "number": "41", "monetary": "ZZZ 41", "portion": "1/7", "string": "supplied"}[last.Type]
+		if g.In.Vars[last.Name] == "" {
+			g.In.Vars[last.Name] = "supplied"
+		}
 	}
 }
 
